@@ -6,7 +6,8 @@ free tail blocks) x flush schedules before the reorg x fork depth 1..3 x new-bra
 (single fork, back-to-back forks, equal/shorter branch then extension, forced reorgs with the
 chain unchanged / extended / silently switched, fork discovered at every scheduler step of a
 running batch; server restarted before the reorganisation; forks of depth 6..7 on a longer
-chain, below the block files still on disk).  Oracles: the reference indexer of the final chain and a fresh real server that
+chain, below the block files still on disk; the daemon switching, between two of the block
+processor's daemon calls, to a branch shorter than what it has just reported).  Oracles: the reference indexer of the final chain and a fresh real server that
 only ever saw the final chain (public observables and raw tables).
 '''
 import itertools
@@ -90,6 +91,18 @@ def cases_for(tier):
                 cases.append(dict(shape='midbatch', tail=list(tail), d=d, ext=['new', 'old', 'new'],
                                   branch=['replay'] + ['new'] * (d + 3), k=k, limit=6,
                                   prefetch=2 if k % 2 else 100))
+    # ... and the daemon switching to a branch SHORTER than what it has just reported (between two
+    # of the block processor's daemon calls: every daemon answer is a scheduler step here), while
+    # it extends or while a reorganisation is under way; later that branch outgrows everything
+    for tail in mid_tails[:1] if q else mid_tails:
+        for d in (1, 2):
+            for below in (1, 2):
+                for first_fork in (None, 2):
+                    for k in range(0, 130 if first_fork else 70, 1 if not q else 2):
+                        cases.append(dict(shape='midbatch-short', tail=list(tail), d=d, below=below,
+                                          ext=['new', 'old', 'new'], first_fork=first_fork,
+                                          branch=['replay'] + ['new'] * (d + 3), k=k, limit=6,
+                                          slow_daemon=True, prefetch=2 if k % 2 else 100))
     return cases
 
 
@@ -98,10 +111,10 @@ def run(tier, seed, started):
     res = farm(run_case, cases, seed=seed)
     c = res.counters
     shapes = res.sets.get('shapes', set())
-    if shapes != {'single', 'double', 'short', 'forced', 'midbatch'} or \
+    if shapes != {'single', 'double', 'short', 'forced', 'midbatch', 'midbatch-short'} or \
             not c.get('fresh_server_comparisons') or not c.get('restarts_before_reorg'):
         common.vacuous(PROP, res, f'vacuous C03 run: {shapes} {c}')
-    if c.get('max:midbatch_steps', 0) >= 260:
+    if c.get('max:midbatch_steps', 0) >= 260 or c.get('max:midbatch_short_steps', 0) >= 130:
         raise common.Broken('mid-batch switch positions do not cover the whole batch')
     coverage = {
         'evaluations': c['executions'],
